@@ -98,11 +98,13 @@ class Summary:
         self.needs_nonnull = {}      # term -> site (dereferenced without a dominating non-null test)
         self.derefs = []             # (site, term, checked)  for diagnosis
         self.ret_fresh = False
+        self.ret_exact = False       # returned pointer is the allocation base itself
         self.indirect = []           # (inst id, struct, idx, targets)
         self.addr_reg = {}           # akey -> Addr (for rendering / rebasing)
         self.unknown_shapes = []     # things the engine could not model
         self.stores = []             # (inst id, Loc, value term, site) every store (flat)
-        self.exit_states = []        # (cls, facts, must, may, site) for path-level rules
+        self.exit_states = []        # (cls, state, site, src block) for path-level rules
+        self.fa = None               # the FuncAnalysis (converged block states) for path-level rules
 
     def c(self, cls):
         return self.cls.get(cls)
@@ -113,9 +115,11 @@ def exportable(t):
     if k in ("c", "null", "a"):
         return True
     if k == "ld":
-        return t[1][0][0] == "arg"
+        return t[1][0][0] in ("arg", "heap", "heapi")
     if k == "p":
-        return t[1][0][0] in ("arg", "global", "heap")
+        return t[1][0][0] in ("arg", "global", "heap", "heapi")
+    if k == "pi":
+        return True
     if k == "bin":
         return exportable(t[2]) and exportable(t[3])
     return False
@@ -133,6 +137,8 @@ def term_str(t, reg=None, prog=None):
         a = reg.get(t[1]) if reg else None
         s = addr_str(a, prog) if a else str(t[1])
         return ("*(%s)" if k == "ld" else "&(%s)") % s
+    if k == "pi":
+        return "&(%s#%s+?)" % (t[1][0], t[1][1])
     if k == "bin":
         return "(%s %s %s)" % (term_str(t[2], reg, prog), t[1], term_str(t[3], reg, prog))
     if k == "call":
@@ -154,7 +160,7 @@ class Analyzer:
         for f in self.order:
             self.summaries[f.key] = FuncAnalysis(f, self).run()
             if self.summaries[f.key].ret_fresh:
-                self.fresh_fns[f.name] = True
+                self.fresh_fns[f.name] = self.summaries[f.key].ret_exact
 
     def callee_keys(self, f):
         keys = set()
@@ -295,9 +301,15 @@ class FuncAnalysis:
         if o == "call":
             if i["type"].endswith("*"):
                 a = self.am.of(op)
-                if a is not None and a.root[0] == "heap":
-                    return ("p", self.reg(a))
+                if a is not None and a.root[0] in ("heap", "heapi"):
+                    if is_const_addr(a):
+                        return ("p", self.reg(a))
+                    return ("pi", a.root[:2])
             return ("call", i["id"])
+        if o in ("inttoptr", "select", "phi") and i["type"].endswith("*"):
+            a = self.am.of(op)
+            if a is not None and a.root[0] == "heap" and len(a.segs) == 1 and not is_const_addr(a):
+                return ("pi", a.root[:2])
         if o in ("getelementptr", "alloca"):
             a = self.am.of(op)
             if a is not None and is_const_addr(a):
@@ -499,7 +511,7 @@ class FuncAnalysis:
         if name == "free":
             if collect:
                 a = self.am.of(inst["ops"][0])
-                self.S.frees.append((inst["id"], self.term(inst["ops"][0], st), a, self.site(inst)))
+                self.S.frees.append((inst["id"], self.term(inst["ops"][0], st), a, self.site(inst), st.facts))
             return
         # library function (direct or through a vtable)
         targets = []
@@ -544,9 +556,9 @@ class FuncAnalysis:
                 if k >= len(actual_addrs) or actual_addrs[k] is None:
                     return None
                 return rebase(addr, actual_addrs[k])
-            if r[0] == "heap":
-                # the callee's fresh block: if it is this call's own result, name it so
-                return Addr(("heap", inst["id"]), addr.segs)
+            if r[0] in ("heap", "heapi"):
+                # the callee's fresh block: named after this call site in the caller
+                return Addr((r[0], inst["id"]), addr.segs)
             if r[0] == "global":
                 return addr
             return None
@@ -574,6 +586,9 @@ class FuncAnalysis:
                 if any(may_overlap(loc, l2) for (l2, _s) in st.may.values()):
                     return None
                 return ("ld", key[0], t[2])
+            if k == "pi":
+                a2 = Addr(("heapi", inst["id"]), (Seg(None, 0, None),))
+                return ("p", self.reg(a2))
             if k == "bin":
                 x, y = xl_term(t[2], s), xl_term(t[3], s)
                 if x is None or y is None:
@@ -606,9 +621,9 @@ class FuncAnalysis:
                         self.S.reads.setdefault((self.reg(a2), loc.size), (Loc(a2, loc.size), site + " -> " + w))
                 for (iid, fn, sz, w) in s.allocs:
                     self.S.allocs.append((inst["id"], fn, xl_term(sz, s) or ("v", "sz"), site + " -> " + w))
-                for (iid, t, a, w) in s.frees:
+                for (iid, t, a, w, ffacts) in s.frees:
                     a2 = xl_addr(a) if a is not None else None
-                    self.S.frees.append((inst["id"], xl_term(t, s) or ("v", "fr"), a2, site + " -> " + w))
+                    self.S.frees.append((inst["id"], xl_term(t, s) or ("v", "fr"), a2, site + " -> " + w, st.facts))
                 for n2, w in s.ext_calls.items():
                     self.S.ext_calls.setdefault(n2, site + " -> " + w)
                 for a in s.asms:
@@ -708,10 +723,13 @@ class FuncAnalysis:
             return
         if fct[1][0] == "call" and fct[2] == ("c", 0):
             cid = fct[1][1]
-        elif fct[1][0] == "p" and fct[2] == ("null",) and fct[1][1][0][0] == "heap" and \
+        elif fct[1][0] == "p" and fct[2] == ("null",) and fct[1][1][0][0] in ("heap", "heapi") and \
                 len(fct[1][1][1]) == 1 and isinstance(fct[1][1][0][1], int) and \
                 self.f.insts.get(fct[1][1][0][1], {}).get("op") == "call":
             cid = fct[1][1][0][1]     # pointer-returning callee: null / non-null classes
+        elif fct[1][0] == "pi" and fct[2] == ("null",) and isinstance(fct[1][1][1], int) and \
+                self.f.insts.get(fct[1][1][1], {}).get("op") == "call":
+            cid = fct[1][1][1]
         else:
             return
         cl = "nz" if fct[0] == "ne" else "z"
@@ -755,6 +773,49 @@ class FuncAnalysis:
                 out.append((succ, st.copy()))
         return out
 
+    def edge_facts(self, bb, succ):
+        """facts the branch at the end of bb adds on the edge to succ (after convergence)."""
+        t = self.f.term(bb)
+        st = self.term_state.get(bb)
+        if st is None:
+            return []
+        if t["op"] == "br" and len(t["succs"]) == 2 and t["succs"][0] != t["succs"][1]:
+            out = []
+            for k, sname in enumerate(t["succs"]):
+                if sname == succ:
+                    out += self.cond_facts(t["ops"][0], k == 0, st)
+            return out
+        return []
+
+    def all_paths_have(self, pred_fact, exit_block, via_pred=None):
+        """True when every CFG path from the entry to exit_block (entered from via_pred when given)
+        crosses an edge carrying a fact accepted by pred_fact."""
+        f = self.f
+        rpo = f.rpo()
+        J = {b: None for b in rpo}
+        J[f.entry] = False
+        changed = True
+        def edge_val(p, b):
+            if J[p] is None:
+                return None
+            return J[p] or any(pred_fact(x) for x in self.edge_facts(p, b))
+        while changed:
+            changed = False
+            for b in rpo:
+                if b == f.entry:
+                    continue
+                vals = [edge_val(p, b) for p in f.preds[b]]
+                vals = [v for v in vals if v is not None]
+                if not vals:
+                    continue
+                n = all(vals)
+                if J[b] != n:
+                    J[b] = n
+                    changed = True
+        if via_pred is not None:
+            return bool(edge_val(via_pred, exit_block))
+        return bool(J.get(exit_block))
+
     # ------------------------------------------------------------ driver
     def run(self):
         f = self.f
@@ -795,6 +856,10 @@ class FuncAnalysis:
                         changed = True
         # final collecting pass
         self.S.stores = []
+        self.IN = IN
+        self.edge_out = edge_out
+        self.term_state = {}
+        self.S.fa = self
         for b in rpo:
             if IN[b] is None:
                 continue
@@ -802,6 +867,7 @@ class FuncAnalysis:
             insts = f.bbmap[b]["insts"]
             for inst in insts[:-1]:
                 self.step(st, inst, True)
+            self.term_state[b] = st.copy()
             t = insts[-1]
             if t["op"] == "ret":
                 self.do_ret(b, t, st, IN, edge_out)
@@ -814,6 +880,7 @@ class FuncAnalysis:
         f = self.f
         site = self.site(t)
         if not t["ops"]:
+            self._exit_src = b
             self.add_exit("void", st, site)
             return
         rv = t["ops"][0]
@@ -832,6 +899,7 @@ class FuncAnalysis:
         self.classify_exit(rv, st, site, b)
 
     def classify_exit(self, val, st, site, src_bb):
+        self._exit_src = src_bb
         t = self.term(val, st)
         if t[0] == "c":
             self.S.retconsts.add(t[1])
@@ -839,7 +907,7 @@ class FuncAnalysis:
         elif t[0] == "null":
             self.S.retconsts.add("null")
             self.add_exit("z", st, site)
-        elif t[0] == "p":
+        elif t[0] in ("p", "pi"):
             if ("eq", t, ("null",)) in st.facts:
                 self.S.retconsts.add("null")
                 self.add_exit("z", st, site)
@@ -867,7 +935,7 @@ class FuncAnalysis:
         else:
             # value not classified: pointer results of inttoptr etc. count as non-null when fresh
             a = self.am.of(val) if val[0] in ("i", "a") else None
-            if a is not None and a.root[0] == "heap":
+            if a is not None and a.root[0] in ("heap", "heapi"):
                 self.S.retconsts.add("ptr")
                 self.add_exit("nz", st, site)
                 return
@@ -933,7 +1001,7 @@ class FuncAnalysis:
                 continue
             may.setdefault(k, (loc, w))
         cs.add_exit(facts, must, may)
-        self.S.exit_states.append((cls, st, site))
+        self.S.exit_states.append((cls, st, site, self._exit_src))
 
     def finish(self):
         # does the function return a fresh allocation (or null)?
@@ -955,3 +1023,17 @@ class FuncAnalysis:
                         if a is None or a.root[0] != "heap":
                             fresh = False
             self.S.ret_fresh = fresh and any_ret
+            exact = True
+            for i in f.all_insts():
+                if i["op"] == "ret" and i["ops"]:
+                    vals = [i["ops"][0]]
+                    v = i["ops"][0]
+                    if v[0] == "i" and f.insts[v[1]]["op"] == "phi":
+                        vals = f.insts[v[1]]["ops"]
+                    for v in vals:
+                        if v[0] == "n":
+                            continue
+                        a = self.am.of(v)
+                        if a is None or not is_const_addr(a) or a.segs[-1].off != 0:
+                            exact = False
+            self.S.ret_exact = self.S.ret_fresh and exact
